@@ -134,6 +134,9 @@ impl World {
         if cb.is_drop() {
             self.drop_panic_seen = true;
         }
+        else {
+            self.panic_seen = true;
+        }
         self.collect_vios("injected panic");
         self.post_panic = true;
         let nfails = self.fails.len();
